@@ -2455,7 +2455,8 @@ int32_t processFinished(ssl_t *ssl, flightEncode_t *msg)
             psTraceErrr("Error snapshotting HS hash flight\n");
             psTraceIntInfo("sslSnapshotHSHash%d\n", rc);
             clearFlightList(ssl);
-            return rc;
+            /* the flight list is gone: never report success (0) here */
+            return rc < 0 ? rc : MATRIXSSL_ERROR;
         }
 
 # ifdef ENABLE_SECURE_REHANDSHAKES
@@ -6216,8 +6217,12 @@ static int32 writeClientKeyExchange(ssl_t *ssl, sslBuf_t *out)
          Retransmit case.  Must use the cached encrypted msg from
          the first flight to keep handshake hash same
  */
-        Memcpy(c, ssl->ckeMsg, ssl->ckeSize);
-        c += ssl->ckeSize;
+        /* nothing is cached for a pure PSK key exchange */
+        if (ssl->ckeMsg != NULL && ssl->ckeSize > 0)
+        {
+            Memcpy(c, ssl->ckeMsg, ssl->ckeSize);
+            c += ssl->ckeSize;
+        }
     }
     else
     {
